@@ -179,7 +179,14 @@ func resolveCtx(v ssa.Value, c pctx) ssa.Value {
 // (cloneSilence: the copy of a silence is a silence; it is only ever handed a silence that was found or received)
 var nonNilCtors = map[string]bool{"errors.New": true, "fmt.Errorf": true, "am/silence.cloneSilence": true, "google.golang.org/protobuf/types/known/timestamppb.New": true}
 
+// assumedNonNil: values a rule declares non-nil for the duration of a walk (e.g. the context's error on the
+// branch taken when the context is done).
+var assumedNonNil func(ssa.Value) bool
+
 func knownNonNil(v ssa.Value) bool {
+	if assumedNonNil != nil && assumedNonNil(v) {
+		return true
+	}
 	switch x := v.(type) {
 	case *ssa.Alloc, *ssa.MakeInterface, *ssa.MakeClosure, *ssa.MakeMap, *ssa.MakeSlice, *ssa.MakeChan, *ssa.Function, *ssa.Global, *ssa.FieldAddr, *ssa.IndexAddr:
 		return true
